@@ -12,7 +12,7 @@ import os
 from vcheck import core, svcgen, svcreal
 
 FIXED = {'suggestCatchesAll': True, 'shortDeliveryOk': True, 'deleteCascadesOps': True,
-         'metadataAtomic': True, 'esFailureFinishesOp': True}
+         'metadataAtomic': True, 'esFailureFinishesOp': True, 'createKeepsInfeasible': True}
 
 W_CREATE = {'op': 'createStudy', 'owner': 'o', 'display': 's', 'state': 'ACTIVE'}
 SUGG = lambda n: {'kind': 'ok', 'sugg': [{'params': i + 1, 'md': []} for i in range(n)], 'delta': []}
@@ -43,6 +43,12 @@ WITNESSES = {
         lambda run: run['resps'][1].get('k') == 'mdError' and run['final']['studies'][0]['md'] == [],
         'update-metadata-missing-trial-not-atomic',
         'UpdateMetadata naming a missing trial does not report error_details cleanly or writes part of the update'),
+    'createKeepsInfeasible': (
+        [W_CREATE, {'op': 'createTrial', 'trial': {'state': 'INFEASIBLE', 'params': 3, 'meas': [], 'final': None, 'reason': 'crashed', 'md': []}},
+         {'op': 'suggest', 'client': 'w', 'count': 1, 'alg': SUGG(1)}],
+        lambda run: run['resps'][1].get('k') == 'trial' and run['resps'][1]['v']['state'] == 'INFEASIBLE' and [t['id'] for t in run['resps'][2]['handed']] == [2],
+        'create-trial-infeasible-becomes-requested',
+        'CreateTrial of a trial given as INFEASIBLE (a trial evaluated elsewhere, added for warm-starting) stores it as REQUESTED: it loses its infeasibility and the next SuggestTrials hands it to a worker for evaluation'),
     'esFailureFinishesOp': (
         [W_CREATE, {'op': 'suggest', 'client': 'w', 'count': 1, 'alg': SUGG(1)},
          {'op': 'checkEarlyStop', 'id': 1, 'es': {'kind': 'raise'}}],
